@@ -64,9 +64,9 @@ func (x *X) String() string {
 }
 
 type canonEnv struct {
-	names map[ssa.Value]string     // caller-named leaves (phis, params, arrays)
-	subst map[ssa.Value]ssa.Value  // parameter substitution for inlined helpers
-	outer *canonEnv                // env in which substituted args are canonicalised
+	names map[ssa.Value]string    // caller-named leaves (phis, params, arrays)
+	subst map[ssa.Value]ssa.Value // parameter substitution for inlined helpers
+	outer *canonEnv               // env in which substituted args are canonicalised
 	fresh int
 	depth int
 	// bool3: if set, pure bitwise expressions over named leaves are replaced by their truth table
